@@ -1,6 +1,7 @@
 import QF.Drv.Hist
 import QF.Spec.Csv
 import QF.Core.Csv
+import QF.Core.CsvFull
 /-
 Driver sections "csvraw" and "csvread".
 -/
@@ -97,6 +98,14 @@ def csvLine (s : CState) (toks : Array String) : CState × List Msg :=
           | .ok (mrows, merr) =>
             let me := match merr with | none => "nil" | some .eof => "eof" | some .fail => "fail"
             (mrows == rows && me == e, s!"model rows {showRows mrows} err={me}")
+        -- the proof model (Core/CsvFull: the subject of C12's schedule-independence and read-back theorems) on the same input
+        let mirrorOk : Bool × String :=
+          if p.failAt ≥ 0 || !mirrorOk.1 || p.doc.length > 2500 then mirrorOk else   -- list-based proof model: quadratic, small documents only
+          match Full.readAll p.delim (8 * p.doc.length + 64) (p.doc.length + 2) (Full.initFS p.doc p.sched) [] with
+          | none => (false, "proof model Full.readAll runs out of fuel")
+          | some (frows, ferr) =>
+            let fe := match ferr with | none => "nil" | some .eof => "eof"
+            if frows == rows && fe == e then mirrorOk else (false, s!"proof model (Full) rows {showRows frows} err={fe}")
         if p.failAt ≥ 0 then
           -- fault injected: the model decides whether the failing call was reached; if so the reader must end in failure
           let reached := match mirror with | .ok (_, some .fail) => true | _ => false
@@ -111,11 +120,8 @@ def csvLine (s : CState) (toks : Array String) : CState × List Msg :=
           else if specOk then
             (s, [{ cls := "MIRROR-MISMATCH", op := "csvraw", kind := "rows", detail := s!"doc {showRows [[p.doc]]} sched {p.sched}: impl rows {showRows rows} err={e}; {mirrorOk.2}" }])
           else
-            let (crInQ, lastDelim) := csvShape p.delim p.doc
             let detail := s!"doc {showRows [[p.doc]]} sched {p.sched}: document denotes {showRows spec}, reader returned {showRows rows} err={e}"
-            if mirrorOk.1 && crInQ then (s, [{ cls := "KNOWN-FINDING", op := "csvraw", kind := "KF-C12-cr-in-quotes", detail := detail }])
-            else if mirrorOk.1 && lastDelim then (s, [{ cls := "KNOWN-FINDING", op := "csvraw", kind := "KF-C12-trailing-empty-field", detail := detail }])
-            else (s, [{ cls := "SPEC-MISMATCH", op := "csvraw", kind := "rows", detail := detail }])
+            (s, [{ cls := "SPEC-MISMATCH", op := "csvraw", kind := "rows", detail := detail }])
   | some "CV" =>
     match runP (do
         let d ← nat
@@ -167,11 +173,8 @@ def csvLine (s : CState) (toks : Array String) : CState × List Msg :=
           let v := judge (.exact exp true) obs
           if v.ok then (s, [{ cls := "OK", op := "csvread", kind := "", detail := "" }])
           else
-            let (crInQ, lastDelim) := csvShape cfg.delim doc
             let detail := s!"doc {showRows [[doc]]} sched {sched}: {v.detail}"
-            if crInQ then (s, [{ cls := "KNOWN-FINDING", op := "csvread", kind := "KF-C12-cr-in-quotes", detail := detail }])
-            else if lastDelim then (s, [{ cls := "KNOWN-FINDING", op := "csvread", kind := "KF-C12-trailing-empty-field", detail := detail }])
-            else (s, [{ cls := "SPEC-MISMATCH", op := "csvread", kind := v.kind, detail := detail }])
+            (s, [{ cls := "SPEC-MISMATCH", op := "csvread", kind := v.kind, detail := detail }])
   | _ => (s, [])
 
 end QF.Drv
